@@ -23,6 +23,8 @@ def call_builtin(eng, it, f, args, kwargs, node):
     if name.startswith('exc.'):
         return VExc(name[4:], tuple(args))
     if name == 'len':
+        if isinstance(args[0], VTrace):
+            return it.from_idx(st.tlen())
         v = it.concretize(args[0], (VList, VSeq, VConst, VTuple, VKwargs, VQueue))
         if isinstance(v, (VList, VSeq)):
             return it.from_idx(list_len(st, v))
@@ -508,6 +510,16 @@ def spec_builtin(eng, it, name, args, kwargs):
         # (event arguments are snapshots that copy the element array wholesale, so this is what a call-out with
         #  the list itself yields; it implies element-wise equality)
         a, b = it.concretize(args[0], (VList, VSeq)), it.concretize(args[1], (VList, VSeq))
+
+        def parts(x):
+            if isinstance(x, VList) and isinstance(x.elem, TInt):
+                return list_len(st, x), list_kind(st, x), list_inner(st, x)
+            if isinstance(x, VSeq) and x.inner is not None:
+                return x.len, x.kind, x.inner
+            return None
+        pa, pb = parts(a), parts(b)
+        if pa is not None and pb is not None:
+            return VBool(z3.And(pa[0] == pb[0], (pa[1] == KIND_LIST) == (pb[1] == KIND_LIST), pa[2] == pb[2]))
         if isinstance(a, VList) and isinstance(b, VList) and repr(a.elem) == repr(b.elem):
             return VBool(z3.And(list_len(st, a) == list_len(st, b),
                                 (list_kind(st, a) == KIND_LIST) == (list_kind(st, b) == KIND_LIST),
